@@ -17,6 +17,7 @@ Exit status 0 on success; 3 when the source can no longer be translated (reporte
 `model-does-not-build`), with a message on stderr.
 """
 import ast
+import glob
 import json
 import os
 import sys
@@ -517,6 +518,57 @@ def gen_numpy_dtypes(names, idn):
     return "\n".join(L) + "\n", table
 
 
+# --------------------------------------------------------------------------- shapes of the back-end functions (AST)
+
+def gen_backend_shapes():
+    """For every function of the pandas / numpy / python back ends (types/*.py and the decorator / test helper modules):
+    its decorators in order (source text) and the exception classes of each of its `except` clauses in order.  The Lean
+    model mirrors exactly these wrappers and catch lists by hand; `VProofs/Props/Shapes.lean` proves the generated table
+    equal to the table the model was written against, so that adding, dropping or reordering a decorator, or changing
+    what a `try` catches, breaks a proof obligation even when no generated input happens to distinguish the two."""
+    rows = []
+    for backend in ("pandas", "numpy", "python"):
+        base = os.path.join(REPO, "src", "visions", "backends", backend)
+        files = sorted(glob.glob(os.path.join(base, "types", "*.py"))) + \
+            [f for f in (os.path.join(base, n) for n in ("series_utils.py", "array_utils.py", "test_utils.py", "traversal.py")) if os.path.exists(f)]
+        for fn in files:
+            mod = os.path.relpath(fn, base)[:-3].replace(os.sep, ".")
+            tree = ast.parse(open(fn).read())
+
+            def walk(node, prefix):
+                for ch in ast.iter_child_nodes(node):
+                    if isinstance(ch, (ast.FunctionDef, ast.AsyncFunctionDef)):
+                        name = prefix + ch.name
+                        decos = [ast.unparse(d) for d in ch.decorator_list]
+                        excepts = []
+                        for sub in ast.walk(ch):
+                            if isinstance(sub, ast.Try):
+                                for h in sub.handlers:
+                                    if h.type is None:
+                                        excepts.append(["<bare>"])
+                                    elif isinstance(h.type, ast.Tuple):
+                                        excepts.append([ast.unparse(e) for e in h.type.elts])
+                                    else:
+                                        excepts.append([ast.unparse(h.type)])
+                        if mod != "__init__":
+                            rows.append((backend, mod + ":" + name, decos, excepts))
+                        walk(ch, name + ".")
+                    elif isinstance(ch, (ast.ClassDef, ast.If, ast.Try, ast.With, ast.For, ast.While)):
+                        walk(ch, prefix)
+            walk(tree, "")
+    rows = [r for r in rows if r[2] or r[3]]
+    L = ["/- GENERATED by harness/translate.py from /repo's working tree (AST). Do not edit. -/",
+         "namespace V.Gen", "",
+         "/-- (back end, module:function, decorators in order, exception classes of each `except` clause in order) -/",
+         "def backendShapes : List (String × String × List String × List (List String)) := ["]
+    for i, (b, n, d, e) in enumerate(rows):
+        L.append("  (%s, %s, [%s], [%s])%s" % (lean_str(b), lean_str(n), ", ".join(lean_str(x) for x in d),
+                                             ", ".join("[" + ", ".join(lean_str(x) for x in cls) + "]" for cls in e),
+                                             "," if i + 1 < len(rows) else ""))
+    L += ["]", "", "end V.Gen"]
+    return "\n".join(L) + "\n", rows
+
+
 def main():
     sys.path.insert(0, os.path.join(REPO, "src"))
     changed = []
@@ -536,6 +588,9 @@ def main():
         pdx, table = gen_pandas_dtypes()
         if write_if_changed("PandasDtypes.lean", pdx):
             changed.append("PandasDtypes.lean")
+        shx, _ = gen_backend_shapes()
+        if write_if_changed("BackendShapes.lean", shx):
+            changed.append("BackendShapes.lean")
         npx, _ = gen_numpy_dtypes(names, idn)
         if write_if_changed("NumpyDtypes.lean", npx):
             changed.append("NumpyDtypes.lean")
